@@ -31,6 +31,8 @@ CORPUS = [
     "(fn [x y] (operator/is_not x 7))", "(fn [x] (operator/truth x))", "(fn [x y] [(bit-and x y) (bit-or x y) (bit-xor x y) (bit-shift-left x y)])",
     "(fn [x y] (let [a (* x y) b (mod x y)] (do a b (= a b))))", "(def ^:dynamic *q* 1)", "(fn [] (do 1 2 3))",
     "(fn [x] (when x (throw (ex-info \"x\" {})) 5))", "(fn [coll] (for [x coll :when (odd? x)] (* x x)))",
+    "(fn [o] (operator/contains (.-known o) (.-fresh-id o)))", "(fn [o k] (operator/getitem (.-table o) (.-key k)))",
+    "(fn [c] (if c (do (throw (ex-info \"x\" {})) (def dead-x 1)) nil) (def dead-x 2))",
     "(fn [x] (try x (finally 2)))", "(fn [x] (try (x) (finally nil)))", "(fn [x] (do (try (x) (finally (if x 1 2))) 3))",
 ]
 
@@ -98,14 +100,15 @@ def synthetic_pairs(alias):
 
     from basilisp.lang.compiler.optimizer import PythonASTOptimizer
 
-    shapes = {"name": "a", "call": "f()", "int": "7", "float": "2.5", "str": "'s'", "none": "None", "true": "True", "ellipsis": "..."}
+    shapes = {"name": "a", "call": "f()", "int": "7", "float": "2.5", "str": "'s'", "none": "None", "true": "True", "ellipsis": "...",
+              "attr": "o.p", "subscript": "o[a]", "binop": "a + b", "dotted": "o.p.q"}
     srcs = []
     for fn in sorted(n for n in dir(operator) if not n.startswith("_") and callable(getattr(operator, n))):
         if fn in ("attrgetter", "itemgetter", "methodcaller", "call"):
             continue
         for s1, e1 in shapes.items():
             srcs.append((f"operator.{fn}/1/{s1}", f"r = {alias}.{fn}({e1})"))
-            for s2, e2 in (("name", "b"), ("call", "g()"), ("int", "7"), ("str", "'s'"), ("none", "None")):
+            for s2, e2 in (("name", "b"), ("call", "g()"), ("int", "7"), ("str", "'s'"), ("none", "None"), ("attr", "o.r"), ("subscript", "o[b]")):
                 srcs.append((f"operator.{fn}/2/{s1},{s2}", f"r = {alias}.{fn}({e1}, {e2})"))
     stmts = {
         "dead-after-return": "def f(x):\n    return g(x)\n    h(x)\n",
@@ -156,7 +159,17 @@ def run(tree, a, b):
     log = []
     def f(): log.append("f()"); return Probe("f", log)
     def g(): log.append("g()"); return Probe("g", log)
-    env = {{ALIAS: operator, "f": f, "g": g, "a": a, "b": b, "check": lambda: log.append("check()")}}
+    class O:
+        """object whose attribute and item reads are logged (and yield further loggable objects)"""
+        def __init__(self, tag): self._tag = tag
+        def __getattr__(self, n):
+            if n.startswith("_"): raise AttributeError(n)
+            log.append(("getattr", self._tag, n)); return O(self._tag + "." + n)
+        def __getitem__(self, k): log.append(("getitem", self._tag)); return Probe(self._tag + "[]", log)
+        def __contains__(self, x): log.append(("contains", self._tag)); return False
+        def __eq__(self, o): log.append(("eq", self._tag)); return True
+        def __hash__(self): return 2
+    env = {{ALIAS: operator, "f": f, "g": g, "a": a, "b": b, "o": O("o"), "check": lambda: log.append("check()")}}
     try:
         exec(compile(tree, "<replay>", "exec"), env)
         res = ("ok", repr(env.get("r")) if not isinstance(env.get("r"), Probe) else "probe")
@@ -171,6 +184,20 @@ for a, b in itertools.product(cands, repeat=2):
               % (a, b, r1, r2, SRC.strip(), ast.unparse(after).strip()))
         sys.exit(1)
 print("HOLDS")
+'''
+
+STRUCT_REPLAY = r'''
+import ast, copy
+from basilisp.lang.compiler.optimizer import PythonASTOptimizer
+BEFORE = {before!r}
+EXPECT_AFTER = {after!r}
+tree = ast.parse(BEFORE)
+out = PythonASTOptimizer().visit(copy.deepcopy(tree))
+got = ast.unparse(ast.fix_missing_locations(out))
+if got.strip() == EXPECT_AFTER.strip():
+    print("REPRODUCED: the pass makes a change outside the allowed rewrites ({kind}: {detail}):\\n--- before\\n" + BEFORE + "\\n--- after\\n" + got)
+    sys.exit(1)
+print("HOLDS (the optimizer no longer produces the recorded output)")
 '''
 
 LISP_REPLAY = r'''
@@ -262,6 +289,20 @@ def run(rep, tier, seed):
             else:
                 rep.nonrepro += 1
                 res.detail += "; Lisp-level replay does not show a difference: " + line[:150]
+        elif any(o["kind"] != "expr-rewrite" for _, _, o in bad):
+            # a structural change outside the catalogue: the witness is the real (before, after) pair itself
+            nsn, idx, other = [(n_, i_, o) for n_, i_, o in bad if o["kind"] != "expr-rewrite"][0]
+            pair = [(b_, a_) for n2, i2, b_, a_ in changed if n2 == nsn and i2 == idx][0]
+            bsrc = ast.unparse(ast.fix_missing_locations(pair[0]))
+            asrc = ast.unparse(ast.fix_missing_locations(pair[1]))
+            path = env.write_replay(rep.prop, "structural-change", STRUCT_REPLAY.format(before=bsrc, after=asrc, kind=other["kind"], detail=other["detail"][:120].replace("'", "")))
+            ok, line = env.replay_reproduces(path, timeout=120)
+            if ok:
+                res.verdict, res.replay, res.reproduced, res.detail = REFUTED, path, True, line[:300]
+                rep.classify_refutation(res, {"kind": other["kind"]}, line[:200])
+            else:
+                rep.nonrepro += 1
+                res.detail += "; structural difference not reproduced by re-running the pass on the unparsed source: " + line[:150]
         else:
             other = [o for _, _, o in bad if o not in is_rewrites][0]
             res.verdict = REFUTED
